@@ -346,9 +346,17 @@ class StorageFarmBroker(service.MultiService):
             by the given announcement.
         """
         assert isinstance(server_id, bytes)
+        certificates = []
+        for data in server["ann"].get("grid-manager-certificates", []):
+            try:
+                certificates.append(SignedCertificate.load(StringIO(json.dumps(data))))
+            except Exception:
+                # a certificate we cannot even parse grants nothing, but it
+                # must not hide the server (or its other certificates)
+                log.msg("ignoring malformed grid-manager certificate from {!r}".format(server_id))
         gm_verifier = create_grid_manager_verifier(
             self.storage_client_config.grid_manager_keys,
-            [SignedCertificate.load(StringIO(json.dumps(data))) for data in server["ann"].get("grid-manager-certificates", [])],
+            certificates,
             "pub-{}".format(str(server_id, "ascii")).encode("ascii"),  # server_id is v0-<key> not pub-v0-key .. for reasons?
         )
 
